@@ -481,5 +481,5 @@ func removalWhileIterating(c *Ctx, r *Report, rule string) {
 	if nbad == 0 {
 		r.Hold(rule, r.Key(rule, nil, "no-removal-while-iterating", ""), token.NoPos, true, fmt.Sprintf("%d index/range loops over slices in the merge closure, none shortens the slice it walks", nloops))
 	}
-	r.Floor(rule, "index/range loops over slices in the merge closure", nloops, 3)
+	r.Floor(rule, "index/range loops over slices in the merge closure", nloops, 1) // an expected-zero rule: the floor only guards against an empty closure
 }
